@@ -36,7 +36,7 @@ class Recorder(object):
     loop = SimLoop.INSTANCE
     self.violations.append({
       'property': prop, 'rule': rule, 'sig': sig or {},
-      'msg': msg, 't': round(CLOCK.now - EPOCH, 6),
+      'msg': msg[:400], 't': round(CLOCK.now - EPOCH, 6),
       'step': loop.steps if loop else 0})
     if loop:
       loop.note('VIOLATION', '%s/%s' % (prop, rule))
